@@ -174,7 +174,10 @@ func runCloseRace(name string, seed int64, rounds int, bw *bufio.Writer) {
 		w.mu.Lock()
 		ts := w.tunnels[0]
 		w.mu.Unlock()
-		if ts.ch != nil {
+		if cfg.Mode == "rev" && round%4 == 1 && w.revServer != nil {
+			// the serving side stops instead: Stop half-closes the carrier of every tunnel it tracks
+			w.revServer.Stop()
+		} else if ts.ch != nil {
 			ts.ch.Close()
 		}
 		close(stop)
